@@ -709,13 +709,15 @@ class _MissingImportFinder:
             assert node._fields == ('name', 'bases', 'keywords', 'body', 'decorator_list', 'type_params'), node._fields
         else:
             assert node._fields == ('name', 'bases', 'keywords', 'body', 'decorator_list'), node._fields
+        # The decorators are evaluated first, outside the scope of the type
+        # parameters: '@T class A[T]' reads the global 'T'.
+        self.visit(node.decorator_list)
         type_params = getattr(node, "type_params", None)
         # The type parameters of 'class A[T: Bound](Base[T])' are visible to
         # the bases, the keywords and the body, but not outside the class.
         with (self._NewScopeCtx() if type_params else contextlib.nullcontext()):
             self._visit_type_params(type_params)
             self.visit(node.bases)
-            self.visit(node.decorator_list)
             # The class's name is only visible to others (not to the body to the
             # class), but is accessible in the methods themselves. See https://github.com/deshaw/pyflyby/issues/147
             self.visit(node.keywords)
@@ -778,6 +780,12 @@ class _MissingImportFinder:
         # The type parameters of 'def f[T: Bound](a: T) -> T' live in a scope
         # of their own around the function: visible to the annotations, the
         # defaults and the body, but not outside.
+        if type_params:
+            # The decorators and the parameter defaults are evaluated outside
+            # that scope: '@T def f[T](x=T)' reads the global 'T' twice.
+            self.visit(node.decorator_list)
+            self.visit(node.args.defaults)
+            self.visit([d for d in node.args.kw_defaults if d])
         with (self._NewScopeCtx(include_class_scopes=True) if type_params
               else contextlib.nullcontext()):
             self._visit_type_params(type_params)
